@@ -8,6 +8,8 @@ From SZ Require Import Base.Values Sync.Nodes Base.MiniPy.
 From SZ Require Sync.NodeSem2.
 From SZ Require Import Gen.KN_accumulate Gen.KN_map Gen.KN_filter Gen.KN_starmap Gen.KN_pluck Gen.KN_union Gen.KN_Stream.
 From SZ Require Import Gen.KN_flatten Gen.KN_partition Gen.KN_sliding_window Gen.KN_unique Gen.KN_collect Gen.KN_slice.
+From SZ Require Import Gen.KN_combine_latest Gen.KN_zip_latest.
+From SZ Require Import Sync.Pipeline.
 Import ListNotations.
 Close Scope Z_scope.
 Open Scope nat_scope.
@@ -19,7 +21,8 @@ Ltac py := cbn [bind ret raise rd wr wr_get tell lift call emit retain_refs rele
                 set_acc set_n set_keyed set_win set_seen set_ports set_last
                 is_no_default accumulate_state accumulate_state_set
                 is_none is_none_fn opt_callf truthy_optnat truthy_md truthy_list
-                cc_cache cc_chunks].
+                cc_cache cc_chunks
+                ls_last ls_meta ls_missing ls_buf ls_set_last ls_set_meta ls_set_missing ls_set_buf truthy_optmd].
 
 Lemma bind_unfold {PS A B} (m : M PS A) (k : A -> M PS B) s :
   bind m k s = match m s with
@@ -27,6 +30,19 @@ Lemma bind_unfold {PS A B} (m : M PS A) (k : A -> M PS B) s :
                | Err o => Err o
                end.
 Proof. reflexivity. Qed.
+
+Lemma bind_ret {PS A B} (a : A) (k : A -> M PS B) s : bind (ret a) k s = k a s.
+Proof. unfold bind, ret. destruct (k a s); reflexivity. Qed.
+Lemma bind_rd {PS A B} (f : PS -> A) (k : A -> M PS B) s : bind (rd f) k s = k (f s) s.
+Proof. unfold bind, rd. destruct (k (f s) s); reflexivity. Qed.
+Lemma bind_bind {PS A B C} (m : M PS A) (f : A -> M PS B) (g : B -> M PS C) s :
+  bind (bind m f) g s = bind m (fun a => bind (f a) g) s.
+Proof.
+  unfold bind. destruct (m s) as [a s1 o1|o1]; [|reflexivity].
+  destruct (f a s1) as [b s2 o2|o2]; [|reflexivity].
+  destruct (g b s2) as [c s3 o3|o3]; rewrite app_assoc; reflexivity.
+Qed.
+Ltac pyr := repeat (progress (py; rewrite ?bind_bind, ?bind_rd, ?bind_ret)).
 
 (* the literal form follows from the strong one *)
 Lemma weaken r o : r = of_option o -> to_option r = o.
@@ -249,3 +265,261 @@ Qed.
 Theorem bridge_update_slice star stop step s p x m : st_detached s = false ->
   gen_update_slice star stop step s p x m = update (KSlice star stop step) s p x m.
 Proof. intros H. apply weaken, bridge_run_slice, H. Qed.
+
+(* ================================================================================================================
+   combine_latest, zip_latest: equality modulo retains / releases of an EMPTY metadata list.
+   The source skips `self._release_refs(old)` when the stored metadata is empty (`if self.metadata[idx]:`), the model
+   always lists `ARelease old`.  An ARelease [] / ARetain [] has no effect in Pipeline.run_actions (strip_run_actions).
+   Side condition: the port is one of the node's upstreams (st_last has one entry per upstream). *)
+(* ---- results modulo retains / releases of an empty metadata list (no effect in Pipeline.run_actions) ---- *)
+Definition noop (a : action) : bool := match a with ARetain [] | ARelease [] => true | _ => false end.
+Definition strip (l : list action) : list action := filter (fun a => negb (noop a)) l.
+Definition strip_r (r : result) : result :=
+  match r with RSome l => RSome (strip l) | RLate l => RLate (strip l) | RNone => RNone end.
+
+Lemma map_set_nth {A B} (f : A -> B) p a l : map f (set_nth p a l) = set_nth p (f a) (map f l).
+Proof. revert p. induction l as [|h t IH]; intros [|p]; cbn; try reflexivity. rewrite IH. reflexivity. Qed.
+Lemma set_nth_same {A} p (a d : A) l : nth p l d = a -> p < length l -> set_nth p a l = l.
+Proof.
+  revert p. induction l as [|h t IH]; intros [|p] H Hl; cbn in *; try lia; [congruence|].
+  rewrite IH by (assumption || lia). reflexivity.
+Qed.
+Lemma nth_map_in {A B} (f : A -> B) p l d e : p < length l -> nth p (map f l) e = f (nth p l d).
+Proof. revert p. induction l as [|h t IH]; intros [|p] H; cbn in *; try lia; [reflexivity|]. apply IH. lia. Qed.
+Lemma latest_roundtrip L : latest_zip (map latest_val L) (map latest_md L) (map is_none L) = L.
+Proof. induction L as [|[[v m]|] t IH]; cbn; [reflexivity| |]; rewrite IH; reflexivity. Qed.
+Lemma latest_full L :
+  match all_some L with
+  | Some full => truthy_flags (map is_none L) = false /\ map latest_val L = map fst full /\
+                 flatten_optmd (map latest_md L) = Some (flat_map snd full)
+  | None => truthy_flags (map is_none L) = true
+  end.
+Proof.
+  induction L as [|[[v m]|] t IH]; cbn [all_some map is_none truthy_flags existsb latest_val latest_md option_map snd
+                                           flatten_optmd orb]; [repeat split| |reflexivity].
+  destruct (all_some t) as [full|]; cbn [map fst snd flat_map].
+  - destruct IH as [H1 [H2 H3]]. unfold truthy_flags in H1. rewrite H1, H2, H3. repeat split.
+  - exact IH.
+Qed.
+Lemma truthy_flags_nth p l : nth p l false = true -> truthy_flags l = true.
+Proof.
+  unfold truthy_flags. revert p. induction l as [|h t IH]; intros [|p] H; cbn [nth existsb] in *; try discriminate.
+  - rewrite H. reflexivity.
+  - rewrite (IH p H). apply orb_true_r.
+Qed.
+
+
+Lemma strip_run_actions emit coro d l w : run_actions emit coro d (strip l) w = run_actions emit coro d l w.
+Proof.
+  unfold run_actions. generalize (w, SOk). induction l as [|a l IH]; intros ws; [reflexivity|].
+  cbn [strip filter]. fold (strip l). destruct (noop a) eqn:N; cbn [negb fold_left].
+  - rewrite IH. f_equal. destruct ws as [w0 s0]. destruct a as [| [|] | [|] |]; try discriminate;
+      cbn [do_action]; destruct (if coro then status_ok s0 else status_go s0); reflexivity.
+  - apply IH.
+Qed.
+Lemma weaken_strip r o : strip_r r = strip_r (of_option o) -> option_map strip (to_option r) = option_map strip o.
+Proof. destruct r, o; cbn; intros H; try discriminate; try reflexivity. injection H as ->. reflexivity. Qed.
+
+Theorem bridge_run_combine_latest eo s p x m : p < length (st_last s) ->
+  strip_r (gen_run_combine_latest eo s p x m) = strip_r (of_option (update (KCombineLatest eo) s p x m)).
+Proof.
+  intros Hp. unfold gen_run_combine_latest, gen_body_combine_latest. cbn [update].
+  unfold combine_latest_store, latest_load, combine_latest_last, combine_latest_last_setitem, combine_latest_metadata,
+    combine_latest_metadata_getitem, combine_latest_metadata_setitem, combine_latest_missing,
+    combine_latest_missing_contains, combine_latest_missing_remove.
+  destruct s as [acc cnt det keyed win seen ports L]. cbn [st_last] in Hp. py.
+  set (L' := set_nth p (Some (x, m)) L).
+  assert (Ev : set_nth p x (map latest_val L) = map latest_val L') by (unfold L'; rewrite map_set_nth; reflexivity).
+  assert (Em : set_nth p (Some m) (map latest_md L) = map latest_md L') by (unfold L'; rewrite map_set_nth; reflexivity).
+  assert (Ei : set_nth p false (map is_none L) = map is_none L') by (unfold L'; rewrite map_set_nth; reflexivity).
+  assert (F := latest_full L').
+  rewrite (nth_map_in latest_md p L None None Hp).
+  destruct (nth p L None) as [[ov om]|] eqn:Eo; cbn [latest_md option_map snd truthy_optmd].
+  - (* the upstream had emitted before: its old metadata is released (unless empty); it is not missing *)
+    assert (Ei' : map is_none L = map is_none L').
+    { rewrite <- Ei. symmetry. apply set_nth_same with (d := false); [|rewrite map_length; exact Hp].
+      rewrite (nth_map_in is_none p L None false Hp), Eo. reflexivity. }
+    destruct om as [|i om]; pyr; rewrite ?(nth_map_in latest_md p L None None Hp), ?Eo; cbn [latest_md option_map snd]; pyr;
+      rewrite (nth_map_in is_none p L None false Hp), Eo; cbn [is_none]; rewrite andb_false_r; pyr;
+      rewrite ?Ei';
+      (destruct (all_some L') as [full|]; [destruct F as [F1 [F2 F3]]; rewrite <- ?F2|]; rewrite ?F1, ?F; cbn [negb andb];
+       [destruct (combine_latest_emit_on_contains eo p) eqn:T; unfold combine_latest_emit_on_contains in T; rewrite T|];
+       repeat (progress (pyr; rewrite ?Ev, ?Em, ?Ei, ?F3, ?latest_roundtrip)); reflexivity).
+  - (* first element from this upstream *)
+    pyr. rewrite (nth_map_in is_none p L None false Hp), Eo; cbn [is_none].
+    rewrite (truthy_flags_nth p (map is_none L)) by (rewrite (nth_map_in is_none p L None false Hp), Eo; reflexivity).
+    pyr. rewrite ?Ei.
+    destruct (all_some L') as [full|]; [destruct F as [F1 [F2 F3]]; rewrite <- ?F2|]; rewrite ?F1, ?F; cbn [negb andb];
+      [destruct (combine_latest_emit_on_contains eo p) eqn:T; unfold combine_latest_emit_on_contains in T; rewrite T|];
+      repeat (progress (pyr; rewrite ?Ev, ?Em, ?Ei, ?F3, ?latest_roundtrip)); reflexivity.
+Qed.
+
+Theorem bridge_update_combine_latest eo s p x m : p < length (st_last s) ->
+  option_map strip (gen_update_combine_latest eo s p x m) = option_map strip (update (KCombineLatest eo) s p x m).
+Proof. intros H. apply weaken_strip, bridge_run_combine_latest, H. Qed.
+
+(* ---- zip_latest: the `while self.lossless_buffer` loop --------------------------------------------------------- *)
+Section Drain.
+Variables (cond : M latest_st bool) (body : M latest_st unit).
+Hypothesis Hcond : forall st, cond st = Ok (truthy_list (ls_buf st)) st [].
+Variables (lv : list val) (lm : list (option md)) (fo : md) (miss : list bool).
+Definition mk hv hm buf : latest_st := {| ls_last := hv :: lv; ls_meta := hm :: lm; ls_missing := miss; ls_buf := buf |}.
+Hypothesis Hbody : forall hv hm x0 m0 rest, body (mk hv hm ((x0, m0) :: rest)) =
+   Ok tt (mk x0 (Some m0) rest)
+      [IWrite (mk hv hm rest); IWrite (mk x0 hm rest); IWrite (mk x0 (Some m0) rest);
+       IEmit (VTup (x0 :: lv)) (m0 ++ fo); IRelease m0].
+Fixpoint drain_items hv hm (buf : list (val * md)) : list (item latest_st) :=
+  match buf with
+  | [] => []
+  | (x0, m0) :: rest =>
+      IBar :: IWrite (mk hv hm rest) :: IWrite (mk x0 hm rest) :: IWrite (mk x0 (Some m0) rest)
+      :: IEmit (VTup (x0 :: lv)) (m0 ++ fo) :: IRelease m0 :: drain_items x0 (Some m0) rest
+  end.
+Fixpoint drain_final hv hm (buf : list (val * md)) : latest_st :=
+  match buf with
+  | [] => mk hv hm []
+  | (x0, m0) :: rest => drain_final x0 (Some m0) rest
+  end.
+Lemma while_drain : forall buf fuel hv hm, length buf <= fuel ->
+  while_ fuel cond body (mk hv hm buf) = Ok tt (drain_final hv hm buf) (drain_items hv hm buf).
+Proof.
+  induction buf as [|[x0 m0] rest IH]; intros fuel hv hm Hf.
+  - destruct fuel; cbn [while_]; rewrite bind_unfold, Hcond; reflexivity.
+  - destruct fuel as [|fuel]; [cbn in Hf; lia|]. cbn [while_]. rewrite bind_unfold, Hcond. cbn [ls_buf mk truthy_list].
+    rewrite bind_unfold. cbn [tell]. rewrite bind_unfold, Hbody. rewrite IH by (cbn in Hf; lia). reflexivity.
+Qed.
+End Drain.
+
+
+Section MDrain.
+Variables (s : nstate) (T : list (option (val * md))) (others : list (val * md)).
+Fixpoint mdrain (b : list (val * md)) : list action :=
+  match b with
+  | [] => []
+  | (x0, m0) :: rest =>
+      ASet (set_win (set_last s (Some (x0, m0) :: T)) rest)
+      :: AEmit (VTup (x0 :: map fst others)) (m0 ++ flat_map snd others) :: ARelease m0 :: mdrain rest
+  end.
+End MDrain.
+Lemma later_write_drain lv lm fo miss hv hm buf : later_write (drain_items lv lm fo miss hv hm buf) = false.
+Proof. destruct buf as [|[x0 m0] rest]; reflexivity. Qed.
+
+Lemma render_drain s T others : map latest_val T = map fst others ->
+  forall buf hv hm,
+  render (zip_latest_store s)
+    (drain_items (map latest_val T) (map latest_md T) (flat_map snd others) (false :: map is_none T) hv hm buf)
+  = mdrain s T others buf.
+Proof.
+  intros Hv. induction buf as [|[x0 m0] rest IH]; intros hv hm; [reflexivity|].
+  cbn [drain_items render later_write]. rewrite IH. cbn [mdrain]. unfold zip_latest_store, mk.
+  cbn [ls_last ls_meta ls_missing ls_buf latest_zip]. rewrite latest_roundtrip, Hv. reflexivity.
+Qed.
+
+Lemma later_write_app {PS} (pre X : list (item PS)) :
+  (X = [] \/ exists t, X = IBar :: t) -> later_write (pre ++ X) = later_write pre.
+Proof.
+  intros HX. induction pre as [|i pre IH]; cbn [app later_write].
+  - destruct HX as [->|[t ->]]; reflexivity.
+  - destruct i; try reflexivity; exact IH.
+Qed.
+Lemma render_app_bar {PS} (store : PS -> nstate) (pre X : list (item PS)) :
+  (X = [] \/ exists t, X = IBar :: t) -> render store (pre ++ X) = render store pre ++ render store X.
+Proof.
+  intros HX. induction pre as [|i pre IH]; cbn [app render]; [reflexivity|].
+  destruct i; rewrite ?IH; try reflexivity.
+  rewrite later_write_app by exact HX. destruct (later_write pre); reflexivity.
+Qed.
+Lemma drain_items_shape lv lm fo miss hv hm buf :
+  drain_items lv lm fo miss hv hm buf = [] \/ exists t, drain_items lv lm fo miss hv hm buf = IBar :: t.
+Proof. destruct buf as [|[x0 m0] rest]; [left; reflexivity | right; eexists; reflexivity]. Qed.
+
+Ltac unfold_zl := unfold latest_load, zip_latest_last, zip_latest_last_setitem, zip_latest_metadata,
+    zip_latest_metadata_getitem, zip_latest_metadata_setitem, zip_latest_missing, zip_latest_missing_contains,
+    zip_latest_missing_remove, zip_latest_lossless_buffer, zip_latest_lossless_buffer_append,
+    zip_latest_lossless_buffer_popleft, combine_latest_last, combine_latest_last_setitem, combine_latest_metadata,
+    combine_latest_metadata_getitem, combine_latest_metadata_setitem, combine_latest_missing,
+    combine_latest_missing_contains, combine_latest_missing_remove, ls_set_last, ls_set_meta, ls_set_missing, ls_set_buf.
+
+Ltac pz := repeat (progress (py; cbn [map nth set_nth Nat.eqb is_none all_some length];
+                             rewrite ?bind_bind, ?bind_rd, ?bind_ret)).
+(* the leaf of the proof in which the loop runs: T = the other upstreams' entries, all present *)
+Ltac loop_leaf T others hv0 hm0 buf F2 F3 :=
+  match goal with |- context [while_ _ ?cnd ?bdy] =>
+  assert (Hb : forall hv hm x0 m0 rest,
+    bdy (mk (map latest_val T) (map latest_md T) (false :: map is_none T) hv hm ((x0, m0) :: rest)) =
+    Ok tt (mk (map latest_val T) (map latest_md T) (false :: map is_none T) x0 (Some m0) rest)
+      [IWrite (mk (map latest_val T) (map latest_md T) (false :: map is_none T) hv hm rest);
+       IWrite (mk (map latest_val T) (map latest_md T) (false :: map is_none T) x0 hm rest);
+       IWrite (mk (map latest_val T) (map latest_md T) (false :: map is_none T) x0 (Some m0) rest);
+       IEmit (VTup (x0 :: map latest_val T)) (m0 ++ flat_map snd others); IRelease m0])
+    by (intros; unfold mk; pz; cbn [flatten_optmd]; rewrite F3; pz; reflexivity);
+  rewrite bind_unfold;
+  match goal with |- context [while_ _ cnd bdy ?st] =>
+    change st with (mk (map latest_val T) (map latest_md T) (false :: map is_none T) hv0 hm0 buf) end;
+  rewrite (while_drain cnd bdy (fun st => eq_refl) _ _ _ _ Hb) by lia
+  end;
+  cbn [bind ret app]; rewrite app_nil_r;
+  cbn [finish render later_write]; rewrite later_write_drain; cbn [existsb is_set orb negb andb];
+  rewrite render_drain by exact F2;
+  unfold mk, zip_latest_store; cbn [ls_last ls_meta ls_missing ls_buf latest_zip]; rewrite ?latest_roundtrip;
+  reflexivity.
+
+Theorem bridge_run_zip_latest s p x m : p < length (st_last s) ->
+  strip_r (gen_run_zip_latest s p x m) = strip_r (of_option (update KZipLatest s p x m)).
+Proof.
+  intros Hp. unfold gen_run_zip_latest, gen_body_zip_latest. cbn [update].
+  destruct s as [acc cnt det keyed win seen ports L]. cbn [st_last st_win] in *.
+  destruct L as [|o T0]; [cbn in Hp; lia|].
+  destruct p as [|p'].
+  - (* the lossless upstream *)
+    unfold_zl. pz.
+    assert (F := latest_full T0).
+    assert (E1 : truthy_flags (is_none o :: map is_none T0) && is_none o = is_none o).
+    { destruct o; cbn [is_none]; [apply andb_false_r | reflexivity]. }
+    rewrite E1.
+    destruct o as [[ov om]|]; pz; unfold truthy_flags at 1; cbn [existsb orb]; fold (truthy_flags (map is_none T0)).
+    all: destruct (all_some T0) as [others|]; [destruct F as [F1 [F2 F3]]|]; rewrite ?F1, ?F; pz.
+    + loop_leaf T0 others x (Some m) (win ++ [(x, m)]) F2 F3.
+    + unfold zip_latest_store; pz. cbn [latest_zip]. rewrite ?latest_roundtrip. reflexivity.
+    + loop_leaf T0 others x (Some m) (win ++ [(x, m)]) F2 F3.
+    + unfold zip_latest_store; pz. cbn [latest_zip]. rewrite ?latest_roundtrip. reflexivity.
+  - (* another upstream *)
+    assert (Hp' : p' < length T0) by (cbn in Hp; lia).
+    set (T' := set_nth p' (Some (x, m)) T0).
+    assert (Ev : set_nth p' x (map latest_val T0) = map latest_val T') by (unfold T'; rewrite map_set_nth; reflexivity).
+    assert (Em : set_nth p' (Some m) (map latest_md T0) = map latest_md T') by (unfold T'; rewrite map_set_nth; reflexivity).
+    assert (Ei : set_nth p' false (map is_none T0) = map is_none T') by (unfold T'; rewrite map_set_nth; reflexivity).
+    assert (F := latest_full T').
+    unfold_zl. pz. fold T'.
+    rewrite (nth_map_in latest_md p' T0 None None Hp').
+    destruct (nth p' T0 None) as [[ov om]|] eqn:Eo; cbn [latest_md option_map snd truthy_optmd].
+    + assert (Ei' : map is_none T0 = map is_none T').
+      { rewrite <- Ei. symmetry. apply set_nth_same with (d := false); [|rewrite map_length; exact Hp'].
+        rewrite (nth_map_in is_none p' T0 None false Hp'), Eo. reflexivity. }
+      destruct om as [|i om]; pz; rewrite ?(nth_map_in latest_md p' T0 None None Hp'), ?Eo; cbn [latest_md option_map snd]; pz;
+        rewrite (nth_map_in is_none p' T0 None false Hp'), Eo; cbn [is_none]; rewrite andb_false_r; pz;
+        rewrite ?Ev, ?Em, ?Ei'.
+      all: destruct o as [[v0 m0]|]; cbn [is_none latest_val latest_md option_map snd];
+        unfold truthy_flags at 1; cbn [existsb orb negb]; fold (truthy_flags (map is_none T')); pz.
+      all: try (unfold zip_latest_store; pz; cbn [latest_zip]; rewrite ?Ev, ?latest_roundtrip; reflexivity).
+      all: destruct (all_some T') as [others|]; [destruct F as [F1 [F2 F3]]|]; rewrite ?F1, ?F; pz.
+      all: try (unfold zip_latest_store; pz; cbn [latest_zip]; rewrite ?Ev, ?latest_roundtrip; reflexivity).
+      * rewrite ?Ev. loop_leaf T' others v0 (Some m0) win F2 F3.
+      * rewrite ?Ev. loop_leaf T' others v0 (Some m0) win F2 F3.
+    + pz. rewrite (nth_map_in is_none p' T0 None false Hp'), Eo; cbn [is_none].
+      assert (Et : truthy_flags (is_none o :: map is_none T0) = true).
+      { unfold truthy_flags. cbn [existsb]. fold (truthy_flags (map is_none T0)).
+        rewrite (truthy_flags_nth p' (map is_none T0)) by (rewrite (nth_map_in is_none p' T0 None false Hp'), Eo; reflexivity).
+        apply orb_true_r. }
+      rewrite Et. pz. rewrite ?Ev, ?Em, ?Ei.
+      destruct o as [[v0 m0]|]; cbn [is_none latest_val latest_md option_map snd];
+        unfold truthy_flags at 1; cbn [existsb orb negb]; fold (truthy_flags (map is_none T')); pz.
+      all: try (unfold zip_latest_store; pz; cbn [latest_zip]; rewrite ?Ev, ?latest_roundtrip; reflexivity).
+      destruct (all_some T') as [others|]; [destruct F as [F1 [F2 F3]]|]; rewrite ?F1, ?F; pz.
+      all: try (unfold zip_latest_store; pz; cbn [latest_zip]; rewrite ?Ev, ?latest_roundtrip; reflexivity).
+      loop_leaf T' others v0 (Some m0) win F2 F3.
+Qed.
+
+Theorem bridge_update_zip_latest s p x m : p < length (st_last s) ->
+  option_map strip (gen_update_zip_latest s p x m) = option_map strip (update KZipLatest s p x m).
+Proof. intros H. apply weaken_strip, bridge_run_zip_latest, H. Qed.
